@@ -67,6 +67,11 @@ EQS = [
     ("to_entries", "to_entries", "[key_values[] as [$key, $value] | {$key, $value}]"),
     ("from_entries-last-wins", "to_entries | (. + .) | from_entries", "to_entries | from_entries"),
     ("splits", "[splits($s)]", "split($s; null)"),
+    # has($i) says exactly whether .[$i] is a position: the same negative positions count from the end for both
+    ("has-range", "[has(range(-length - 2; length + 2))]", "[range(-length - 2; length + 2) as $i | $i >= -length and $i < length]"),
+    ("has-get", "[range(-length - 2; length + 2) as $i | has($i) == ((.[:$i] | length) != (.[:$i + 1] | length) or ($i == -1 and length > 0))]", "[range(-length - 2; length + 2) | true]"),
+    ("has-keys", "[has(keys[])] | all", "true"),
+    ("in-keys", "[keys[] as $k | [.] | all(.[]; . as $c | $k | in($c))] | all", "true"),
 ]
 
 ARRS = ["[]", "[1]", "[3,1,2]", "[1,1.0,1]", "[{\"a\":1,\"b\":2},{\"a\":1,\"b\":1},{\"a\":0},{\"b\":1,\"a\":1}]", "[[2,1],[1,2],[1],[]]",
@@ -84,7 +89,7 @@ DOM = {"sort_by": "arr", "sort_by-stable": "arr", "sort": "arr", "group_by": "ar
        "map": "arrobj", "map_values": "arrobj", "index": "arrstr", "rindex": "arrstr", "indices-verify": "arrstr", "flatten": "any",
        "flatten-d": "any", "abs": "num", "floor-int": "num", "indices-complete": "arrstr", "ltrimstr": "str", "rtrimstr": "str", "tonumber": "scalar", "combinations-n": "arr", "any-all": "arr", "add": "arrobj",
        "first-last": "arr", "transpose": "arrarr", "to_entries": "obj", "from_entries-last-wins": "obj", "splits": "str", "join": "arr",
-       "has-in": "any", "in": "any", "inside": "any"}
+       "has-in": "any", "in": "any", "inside": "any", "has-range": "arr", "has-get": "arr", "has-keys": "arrobj", "in-keys": "arrobj"}
 
 
 def gen(ctx):
